@@ -327,7 +327,14 @@ impl<'a> PoolSet<'a> {
     /// Falls through to the backing arena for strings > 256 bytes.
     pub(crate) fn alloc_str(&self, s: &str) -> ArenaString<'a> {
         let len = s.len();
-        let slot = self.alloc(len as u32);
+        // Sizes are 32 bits here; a longer string goes to the arena with its real length.
+        let slot = match u32::try_from(len) {
+            Ok(size) => self.alloc(size),
+            Err(_) => {
+                let layout = Layout::from_size_align(len, 1).expect("invalid layout");
+                self.arena.allocate(layout).expect("arena capacity exceeded")
+            }
+        };
         let ptr = slot.cast();
         unsafe {
             std::ptr::copy_nonoverlapping(s.as_ptr(), ptr.as_ptr(), len);
